@@ -44,8 +44,11 @@ def run_scenario(root, nenf, actions, seed):
             r = os.path.join(root, 'e%d' % i)
             fs = FsSim(r)
             fs.mkdir('policy.d')
+            if i != 2:
+                fs.mkdir('second.d')        # policy.d is then NOT the last existing directory
             if i != 1:
-                fs.write_main({'alpha': 'role:file%d' % i} if i == 0 else {'old_alpha': 'role:oldfile', 'zeta': '@'}, 'yaml')
+                fs.write_main({'alpha': 'role:file%d' % i} if i == 0 else
+                              {'old_alpha': 'role:oldfile', 'zeta': '@', 'beta': 'role:mainbeta'}, 'yaml')
             if i == 2:
                 fs.write('policy.d', 'x.yaml', {'beta': 'role:dir2'}, 'json')
             fs.sync()
@@ -59,10 +62,12 @@ def run_scenario(root, nenf, actions, seed):
         conf.set_override('policy_file', MAIN, group='oslo_policy')
         enw = (i % 2 == 0)
         conf.set_override('enforce_new_defaults', enw, group='oslo_policy')
-        e = policy.Enforcer(conf)
+        # the third enforcer merges instead of replacing (overwrite=False)
+        ovw = not (i == 2 and not share)
+        e = policy.Enforcer(conf, overwrite=ovw)
         e.suppress_deprecation_warnings = True
         e.register_defaults(shared)          # the SAME objects for every enforcer
-        enfs.append({'e': e, 'fs': fs, 'enw': enw, 'steps': [], 'obs': [], 'k': 0})
+        enfs.append({'e': e, 'fs': fs, 'enw': enw, 'ovw': ovw, 'steps': [], 'obs': [], 'k': 0})
     viol = None
     evals = 0
     for idx, act in actions:
@@ -75,7 +80,14 @@ def run_scenario(root, nenf, actions, seed):
                         {},
                         {'alpha': 'role:newovr%d' % x['k']},
                         {'beta': 'role:edit%d_%d' % (idx, x['k'])}]
-            if act == 'editmain':
+            if not x['ovw']:
+                # the merging enforcer: the files are only rewritten with the SAME content (newer times), so that
+                # "as loading once" stays the yardstick (merging keeps what later versions of a file drop, by design)
+                if act == 'editmain':
+                    x['fs'].touch_main()
+                else:
+                    x['fs'].touch('policy.d', 'x.yaml')
+            elif act == 'editmain':
                 # the policy file itself is edited (or appears, or is emptied), the directory left alone
                 if x['fs'].main is not None and x['k'] % 2 == 0:
                     x['fs'].write_main({}, 'yaml')           # zero bytes
@@ -103,7 +115,7 @@ def run_scenario(root, nenf, actions, seed):
                      'expected': x['obs'][-1]['rules'], 'observed': o['rules']})
             break
         # ... and as a brand-new enforcer (same options, same files, same shared objects) loading exactly once
-        fe = policy.Enforcer(x['e'].conf)
+        fe = policy.Enforcer(x['e'].conf, overwrite=x['ovw'])
         fe.suppress_deprecation_warnings = True
         fe.register_defaults(shared)
         fe.load_rules()
@@ -131,6 +143,8 @@ def run_scenario(root, nenf, actions, seed):
     for i, x in enumerate(enfs):
         if not x['steps']:
             continue
+        if not x['ovw']:
+            continue        # (the model covers the default overwrite mode; this enforcer is judged by the statement alone)
         mod = model_history([x['enw'], enc_defaults(SHARED), 1], x['steps'])
         for j, (m, o) in enumerate(zip(mod, x['obs'])):
             if m != o:
